@@ -91,7 +91,8 @@ def rand_expr(rng, xleaves, leaves):
     return e
 
 
-POINT_NAMES = ["x0", "xs", "y", "z1", "w"]
+# names with braces / format-like fragments: a name is DATA, never a format template (seed C17-9)
+POINT_NAMES = ["x0", "xs", "y", "z1", "w", "x_{0}", "x_{*}", "z_{k}", "{}", "%s"]
 
 
 def declare(pep, rng, name, params, named):
@@ -100,7 +101,7 @@ def declare(pep, rng, name, params, named):
         d = kwargs.pop("d")
         kwargs["partition"] = pep.declare_block_partition(d=d)
     if named:
-        kwargs["name"] = rng.choice(["f", "h", "A_op", "F1"])
+        kwargs["name"] = rng.choice(["f", "h", "A_op", "F1", "f_{0}", "h_{1}", "g_{k}", "f_{}", "{0}%d"])
     return pep.declare_function(get_class(name), **kwargs)
 
 
